@@ -71,8 +71,9 @@ func parseTimeOffset(offset string) (d time.Duration) {
 		num, _ := strconv.Atoi(offset[:i-1])
 		offset = offset[i-1:]
 
+		// the unit ends where the next number starts
 		i = 1
-		for i <= len(offset) && !digitsOnly.MatchString(offset[:i]) {
+		for i <= len(offset) && !digitsOnly.MatchString(offset[i-1:i]) {
 			i++
 		}
 		unit := offset[:i-1]
